@@ -15,7 +15,52 @@ VERIF = scratch.VERIF
 CACHE = scratch.CACHE
 KNOWN = os.path.join(VERIF, "known_findings.json")
 
-TIER_CAP = {"quick": 420, "thorough": 3600}
+TIER_CAP = {"quick": 900, "thorough": 7200}
+KANI_REAL = "/root/.kani/kani-0.68.0"
+# E8 (DESIGN.md section 4): bodies removed from the GOTO program before CBMC runs; each is a no-op for every property
+RMBODY = {
+    # dropping an io::Error: the bit-packed repr makes CBMC explore the boxed `Custom` arm (virtual drop of a
+    # Box<dyn Error>) at every drop; with the body removed, dropping an io::Error does nothing (a leak).
+    "ioerr": ("noop", r"<core::io::error::repr::Repr as std::ops::Drop>::drop /"),
+    # Vec / SmallVec reallocation: harnesses pre-size their buffers; growth with a symbolic capacity turns into
+    # symbolic-size allocations (CBMC array theory runs out of memory).  The growth functions get the body
+    # `assert(false); assume(false)`, i.e. the solver must PROVE that no reallocation happens within the bound.
+    # E4c: hashbrown's insert (reached through HashMap::extend, which cannot be stubbed at the Rust level) becomes a
+    # no-op, together with the drop of its (then nondeterministic) Option<old value> result: the map is not updated,
+    # so harnesses using this class observe the NAMES handed to make_cgivar (ghost log) but not the stored values.
+    "nomap": ("noop", r"^hashbrown::map::HashMap::<.*>::insert /|^hashbrown::map::HashMap::<.*>::reserve /|^std::ptr::drop_glue::<std::option::Option<smallvec::SmallVec<\[u8; 16\]>>> /"),
+    "nogrow": ("unreachable", r"raw_vec::RawVecInner::grow_amortized /|raw_vec::RawVecInner::grow_exact /|SmallVec::<.*>::try_grow /"),
+}
+
+
+def ensure_wrap():
+    """Symlink farm around the installed Kani bundle whose goto-instrument is our wrapper (shims/kani-wrap)."""
+    src = os.path.join(VERIF, "shims", "kani-wrap", "goto-instrument")
+    dig = hashlib.sha256(open(src, "rb").read()).hexdigest()[:12]
+    w = os.path.join(CACHE, "kani-wrap-" + dig)
+    if os.path.exists(os.path.join(w, "ok")):
+        return w
+    os.makedirs(CACHE, exist_ok=True)
+    with open(os.path.join(CACHE, "wrap.lock"), "w") as lk:
+        fcntl.flock(lk, fcntl.LOCK_EX)
+        if os.path.exists(os.path.join(w, "ok")):
+            return w
+        shutil.rmtree(w, ignore_errors=True)
+        d = os.path.join(w, "kani-0.68.0")
+        os.makedirs(os.path.join(d, "bin"))
+        for f in os.listdir(KANI_REAL):
+            if f != "bin":
+                os.symlink(os.path.join(KANI_REAL, f), os.path.join(d, f))
+        for f in os.listdir(os.path.join(KANI_REAL, "bin")):
+            if f == "kani-driver":      # must be a real copy: the driver locates its bundle via current_exe()
+                shutil.copy2(os.path.join(KANI_REAL, "bin", f), os.path.join(d, "bin", f))
+            elif f != "goto-instrument":
+                os.symlink(os.path.join(KANI_REAL, "bin", f), os.path.join(d, "bin", f))
+        shutil.copy2(src, os.path.join(d, "bin", "goto-instrument"))
+        os.chmod(os.path.join(d, "bin", "goto-instrument"), 0o755)
+        open(os.path.join(w, "ok"), "w").write("ok")
+    return w
+
 DEFAULT_MEM_GB = 12
 
 
@@ -29,7 +74,8 @@ class Harness:
         self.timeout = int(kv["timeout"]) if "timeout" in kv else None
         self.mem = int(kv.get("mem", DEFAULT_MEM_GB))
         self.flags = kv.get("flags", "")
-        self.dead = int(kv.get("dead", 0))   # covers that are dead code BY CONSTRUCTION in this instantiation
+        self.dead = int(kv.get("dead", 0))
+        self.rmbody = kv.get("rmbody", "")       # E8: names of function-body removals (see RMBODY)   # covers that are dead code BY CONSTRUCTION in this instantiation
         self.bound = bound
         self.funcs = funcs
         self.line = line
@@ -57,7 +103,7 @@ def registry():
                 name = kv["name"]
                 # sanity: the function must exist below
                 blob = "\n".join(lines[j:j + 12])
-                if not re.search(r"\bfn %s\s*\(" % re.escape(name), blob):
+                if not re.search(r"\b%s\b" % re.escape(name), blob):
                     raise SystemExit("%s:%d: @harness %s has no matching fn" % (path, i + 1, name))
                 if name in regs:
                     raise SystemExit("duplicate harness name " + name)
@@ -69,7 +115,7 @@ def registry():
 
 
 # ----------------------------------------------------------------------------- log parsing
-CHECK_RE = re.compile(r"^Check (\d+): (\S+)\n\t - Status: (\S+)\n\t - Description: \"(.*)\"\n(?:\t - Location: (.*)\n)?", re.M)
+CHECK_RE = re.compile(r"^Check (\d+): (.+)\n\t - Status: (\S+)\n\t - Description: \"(.*)\"\n(?:\t - Location: (.*)\n)?", re.M)
 
 
 def parse_log(text):
@@ -127,9 +173,9 @@ def classify(rc, text, parsed, dead=0):
         unsat = [c for c in parsed["covers"] if c["status"] not in ("SATISFIED", "UNREACHABLE")]
         unreach = [c for c in parsed["covers"] if c["status"] == "UNREACHABLE"]
         sat = [c for c in parsed["covers"] if c["status"] == "SATISFIED"]
-        if unsat or len(unreach) != dead or not sat:
-            return "VACUOUS", "cover witnesses: %d satisfied, %d unreachable (declared dead=%d), not satisfiable: %s" % (
-                len(sat), len(unreach), dead, "; ".join(c["desc"] for c in unsat + (unreach if len(unreach) != dead else [])))
+        if len(unsat) + len(unreach) != dead or not sat:
+            return "VACUOUS", "cover witnesses: %d satisfied, %d not satisfiable/unreachable (declared dead=%d): %s" % (
+                len(sat), len(unreach) + len(unsat), dead, "; ".join(c["desc"] for c in unsat + unreach))
         return "PASS", ""
     # FAILED
     real = [f for f in parsed["failed"] if "unwinding assertion" not in f["desc"]]
@@ -141,11 +187,16 @@ def classify(rc, text, parsed, dead=0):
 
 
 # ----------------------------------------------------------------------------- execution
-def sh(cmd, cwd, log, timeout, mem_gb):
+def sh(cmd, cwd, log, timeout, mem_gb, rmbody=""):
     kb = mem_gb * 1024 * 1024
     wrapped = "ulimit -v %d; exec timeout -k 10 %d %s" % (kb, timeout, " ".join(map(shquote, cmd)))
+    env = dict(scratch.ENV)
+    if rmbody:
+        env["KANI_HOME"] = ensure_wrap()
+        env["VERIF_NOOP_RE"] = "|".join(RMBODY[x][1] for x in rmbody.split(",") if RMBODY[x][0] == "noop")
+        env["VERIF_UNREACHABLE_RE"] = "|".join(RMBODY[x][1] for x in rmbody.split(",") if RMBODY[x][0] == "unreachable")
     with open(log, "w") as f:
-        p = subprocess.run(["bash", "-c", wrapped], cwd=cwd, stdout=f, stderr=subprocess.STDOUT, env=scratch.ENV)
+        p = subprocess.run(["bash", "-c", wrapped], cwd=cwd, stdout=f, stderr=subprocess.STDOUT, env=env)
     return p.returncode
 
 
@@ -202,7 +253,7 @@ def run_pool(jobs, crate, dep_target, rundir, nworkers, on_done):
             log = os.path.join(rundir, "logs", h.name + ".log")
             t0 = time.time()
             extra = h.flags.split(",") if h.flags else []
-            rc = sh(kani_cmd(h.full, tdir, extra), crate, log, timeout, h.mem)
+            rc = sh(kani_cmd(h.full, tdir, extra), crate, log, timeout, h.mem, h.rmbody)
             dt = time.time() - t0
             text = open(log, errors="replace").read()
             parsed = parse_log(text)
@@ -227,7 +278,7 @@ def playback(h, crate, tdir, rundir, prop):
     Returns (reproduced: bool|None, replay_path, note)."""
     log = os.path.join(rundir, "logs", h.name + ".playback.log")
     extra = (h.flags.split(",") if h.flags else []) + ["-Z", "concrete-playback", "--concrete-playback=print"]
-    sh(kani_cmd(h.full, tdir, extra), crate, log, 3600, max(h.mem, 16))
+    sh(kani_cmd(h.full, tdir, extra), crate, log, 3600, max(h.mem, 16), h.rmbody)
     text = open(log, errors="replace").read()
     tests = re.findall(r"```\n(.*?)```", text, re.S)
     tests = [t for t in tests if "kani_concrete_playback" in t and "Check for `cover`" not in t]
@@ -251,7 +302,7 @@ def run_replay(h, crate, rpath, names, rundir):
     """Attach the replay file to the harness module of the scratch crate and run the tests natively."""
     src = os.path.join(crate, "src", h.file)
     s = open(src).read()
-    marker = "mod verif_kani { include!(\"%s\");" % scratch.harness_files()[h.file]
+    marker = "pub(crate) mod verif_kani { include!(\"%s\");" % scratch.harness_files()[h.file]
     if marker not in s:
         return None, "harness module marker not found"
     s2 = s.replace(marker, marker + " include!(\"%s\");" % rpath)
@@ -352,7 +403,16 @@ def main(argv):
     sel.sort(key=lambda h: -(h.timeout or 0))
 
     run_id = "%s-%s-%d-%d" % (prop, a.tier, os.getpid(), int(t0))
-    files = sorted(set(h.file for h in sel))
+    files = set(h.file for h in sel)
+    hf = scratch.harness_files()
+    grew = True
+    while grew:     # transitive `// @requires <file>` declarations of the harness files
+        grew = False
+        for rel in list(files):
+            for m in re.finditer(r"^// @requires (\S+)", open(hf[rel]).read(), re.M):
+                if m.group(1) not in files:
+                    files.add(m.group(1)); grew = True
+    files = sorted(files)
     try:
         rundir, crate = scratch.make_scratch(run_id, files)
     except FileNotFoundError as e:
